@@ -163,3 +163,11 @@ reg("C14",
     explanation="part 0 (runtime): DoubleKey and DoubleOps over f64 / Option / Vec / BTreeMap compositions through educe-derived structs and a union-like enum built exactly like generated code, with 9 f64 bit patterns incl. three NaNs; part 1 (generated): every generated object / union / alias of the E2 type space that contains a double (directly, in optionals, lists, sets, map keys/values, aliases, nested objects), up to 13 values per type from JSON; all ordered pairs and triples",
     level_text="Exhaustive checking of the algebraic laws (reflexive, eq <=> cmp Equal, antisymmetric, transitive, NaN greatest, eq => same hash, partial_cmp and operators agree with cmp, set/map lookups, deserialize-twice equality) over every pair and triple of a bounded value set per type, on the real runtime code and on the compiled output of the real generator.",
     level_note="Trusted: the law checker (vcommon::laws); values outside the alphabet behave like their class representative. NaN payload/sign differences are only reachable in the runtime part.")
+
+reg("C03",
+    packages=["cgorder"], cmd=["python3", "engines/e2/e2.py"], level="exploration", engine="E2 genharness",
+    technique="exhaustive enumeration of IR programs from a grammar (type shapes x positions, names x positions, recursion, packages x stripPrefix, service features, configurations), each run through the real generator and type-checked by rustc against /repo's crates",
+    design_ref="DESIGN.md §3 C03",
+    explanation="every type shape up to depth 2 as object field / union variant / alias target / error argument / endpoint body and return; PLAIN-capable types as path, query (single/optional/list/set) and header parameters; recursion families; one program per (name, position) for every Rust keyword and every identifier the generated code uses (fields, variants, endpoints, arguments, error arguments, package segments, types, enum values); nested packages x 6 stripPrefix values; service features (auth kinds, request context, binary bodies/returns, size limits, docs with code fences, markers, tags); flag configurations; one full generated crate",
+    level_text="Exhaustive exploration of a program grammar that under-approximates the Conjure compiler's language: each program is generated in its own process (so a generation failure is attributable) and the emitted module trees are type-checked with cargo check; errors are attributed to the generating IR item through the one-type-per-file layout.",
+    level_note="Trusted: rustc/cargo check as the oracle for 'compiles'; only IR known to be valid Conjure is enumerated. Compilation of executed code paths is additionally exercised by the C02/C10/C14 builds and the loopback engine.")
